@@ -485,9 +485,10 @@ Theorem encode_needs_cheap_prepend :
 Proof.
   split; [exact header_fits_cheap_prepend|]. split.
   - intros msg ser tag m n k ops st outs. apply fillEmptyBuffer_unused.
-  - Local Transparent kCheapPrepend kInitialSize.
-    vm_compute. eexists _, _. repeat split.
-    Local Opaque kCheapPrepend kInitialSize.
+  - destruct (C10_Model.run (new_buf 16, new_buf 0) [PrependInt W64 0%Z; Unwrite 8]) as [[st outs]| |] eqn:E;
+      try (vm_compute in E; discriminate).
+    exists st, outs. split; [reflexivity|].
+    vm_compute in E. injection E as <- _. vm_compute. split; reflexivity.
 Qed.
 
 Lemma no_err_in_msgs (msg : Type) (es : list (list (cevent msg))) (ms : list msg) :
@@ -538,26 +539,78 @@ Qed.
    exactly those messages come out, the input buffer ends empty, no error, no shutdown *)
 Theorem roundtrip_through_buffers :
   forall (msg : Type) (parse : list byte -> option msg) (ser : msg -> list byte) (tag : list byte),
-    (forall m, parse (ser m) = Some m) ->
     forall (ms : list msg) (bufs : list buf) (chunks : list (list byte)) (n0 : nat),
-      Forall (fun m => fits tag (ser m)) ms ->
+      Forall (fun m => parse (ser m) = Some m /\ fits tag (ser m)) ms ->
       Forall2 (fun m b => exists n, fillEmptyBuffer msg ser tag m (new_buf n) = Ok b) ms bufs ->
       concat chunks = flat_map readable bufs ->
       exists evss c', deliver_all msg parse tag (conn0 n0) chunks = Ok (evss, c') /\
         concat evss = map CMsg ms /\ readable (c_in c') = [] /\
         c_connected c' = true /\ c_shutdowns c' = 0.
 Proof.
-  intros msg parse ser tag Hps ms bufs chunks n0 Hfits HF Hc.
+  intros msg parse ser tag ms bufs chunks n0 Hfits HF Hc.
   assert (Henc : flat_map readable bufs = flat_map (encode_msg msg ser tag) ms).
   { clear Hc Hfits. induction HF as [|m b ms' bufs' (n & E) _ IH]; [reflexivity|].
     cbn [flat_map]. rewrite IH. f_equal.
     destruct (fillEmptyBuffer_fresh msg ser tag n m) as (b' & E' & R & _).
     rewrite E in E'. injection E' as <-. exact R. }
   rewrite Henc in Hc.
-  pose proof (roundtrip msg parse ser tag Hps ms chunks Hfits Hc) as HR.
+  pose proof (roundtrip_on msg parse ser tag ms chunks Hfits Hc) as HR.
   destruct (decoder_over_buffer msg parse tag chunks n0) as (evss & c' & E & _ & Hb & Hlive).
   rewrite HR in Hb, Hlive. cbn [fst snd d_buf d_abandoned] in *.
   destruct (Hlive eq_refl) as (H1 & H2 & H3).
   exists evss, c'. repeat split; assumption.
 Qed.
 
+
+(* the error path: once the decoder of the property text has abandoned the stream (its events
+   end with the error e), the real codec -- which TcpConnection keeps calling for whatever still
+   arrives -- has shut the connection down exactly once, and from then on every delivery
+   re-reports that same error, delivers no message and consumes nothing *)
+Theorem error_abandons_stream :
+  forall (msg : Type) (parse : list byte -> option msg) (tag : list byte)
+         (chunks1 chunks2 : list (list byte)) (n0 : nat),
+    let r1 := codec_feed_all msg parse tag codec_init chunks1 in
+    d_abandoned (snd r1) = true ->
+    exists e pre evss1 c',
+      fst r1 = pre ++ [CErr e] /\
+      deliver_all msg parse tag (conn0 n0) (chunks1 ++ chunks2) =
+        Ok (evss1 ++ repeat [CErr e] (length chunks2), c') /\
+      length evss1 = length chunks1 /\
+      c_connected c' = false /\ c_shutdowns c' = 1 /\
+      readable (c_in c') = d_buf (snd r1) ++ concat chunks2.
+Proof.
+  intros msg parse tag chunks1 chunks2 n0. cbv zeta. intros Hab.
+  destruct (deliver_all_spec msg parse tag (chunks1 ++ chunks2) (conn0 n0) [] (new_buf_inv n0))
+    as (c' & E & HI & Hcon & Hsh).
+  rewrite live_all_app in E, HI, Hcon, Hsh. cbn [fst snd] in E, HI, Hcon, Hsh.
+  pose proof (live_all_vs_feed_all msg parse tag chunks1 [] codec_init (consistent_init msg parse tag)) as H.
+  pose proof (reads_in_bounds msg parse tag chunks1) as [HNF _].
+  destruct (live_all msg parse tag [] chunks1) as [es1 lf1].
+  destruct (codec_feed_all msg parse tag codec_init chunks1) as [evs1 d1] eqn:EF.
+  cbn [fst snd] in *. destruct H as (HC1 & Hlen1 & _ & _ & Hstop).
+  destruct (Hstop eq_refl Hab) as (x0 & Hin0 & Hin0' & l' & Hx0').
+  destruct (feed_all_abandoned msg parse tag chunks1 codec_init evs1 d1 EF eq_refl eq_refl Hab)
+    as (x & pre & Hev & l0 & cs0 & Hb0 & Hx0).
+  assert (Hx : cstep msg parse tag tt (d_buf d1) = SStop [x]).
+  { rewrite Hb0. apply (cstep_stop_mono msg parse tag). exact Hx0. }
+  assert (Hxe : exists e, x = CErr e).
+  { destruct (cstep_stop_kind msg parse tag _ x Hx) as [->|He]; [|exact He].
+    exfalso. apply HNF. rewrite Hev. apply in_or_app. right. left. reflexivity. }
+  destruct Hxe as (e & ->).
+  assert (Hx0e : exists e0, x0 = CErr e0).
+  { destruct (cstep_stop_kind msg parse tag _ x0 Hx0') as [->|He]; [|exact He].
+    exfalso. apply HNF. exact Hin0'. }
+  destruct Hx0e as (e0 & ->).
+  pose proof (live_all_vs_feed_all msg parse tag chunks2 lf1 d1 HC1) as H2.
+  pose proof (feed_all_dead msg parse tag chunks2 d1 Hab) as HD.
+  destruct (live_all msg parse tag lf1 chunks2) as [es2 lf2].
+  rewrite HD in H2. cbn [fst snd] in *. destruct H2 as (HC2 & _ & Hdead & _ & _).
+  destruct (Hdead Hab) as (_ & _ & y & Hy & ->).
+  destruct HC1 as (Hb1 & _ & _). rewrite <- Hb1 in Hy. rewrite Hx in Hy. injection Hy as <-.
+  assert (Herr : any_err msg (es1 ++ repeat [CErr e] (length chunks2)) = true).
+  { apply err_in_any with (e := e0). rewrite concat_app. apply in_or_app. left. exact Hin0. }
+  rewrite Herr in Hcon, Hsh. cbn [conn0 c_connected c_shutdowns negb andb] in Hcon, Hsh.
+  exists e, pre, es1, c'. split; [exact Hev|]. split; [exact E|]. split; [exact Hlen1|].
+  split; [exact Hcon|]. split; [lia|].
+  rewrite (inv_readable _ _ HI). destruct HC2 as (Hb2 & _). cbn [d_buf] in Hb2. symmetry. exact Hb2.
+Qed.
